@@ -475,7 +475,19 @@ func (w *world) connect() string {
 	if w.mode == "pipe" {
 		w.settle(nil)
 	} else {
-		w.waitFor(func() bool { return registered() || closedSeen() })
+		w.waitFor(func() bool {
+			if closedSeen() {
+				return true
+			}
+			if !registered() {
+				return false
+			}
+			// tcp: both loop goroutines must have entered their loops before they can be counted
+			cs.mu.Lock()
+			s := cs.s
+			cs.mu.Unlock()
+			return w.mode != "tcp" || loopsOf()[fmt.Sprintf("%p", s)] == 2
+		})
 	}
 	res := "lost"
 	if registered() {
@@ -527,7 +539,14 @@ func (w *world) op(f []string) string {
 	cs := w.sess[k]
 	ex0, rd0, buf0, _, s := cs.snapshot()
 	wasOver := ex0 > 0
-	endedCond := func() bool { return w.ended(cs, loopsOf()) }
+	// over, and (tcp) the client has seen the server side close
+	endedCond := func() bool {
+		if !w.ended(cs, loopsOf()) {
+			return false
+		}
+		_, _, _, eof, _ := cs.snapshot()
+		return eof || cs.peerClosedBy || cs.fc != nil
+	}
 	ret := "ok"
 	switch f[0] {
 	case "send":
@@ -569,7 +588,7 @@ func (w *world) op(f []string) string {
 		}
 		s.Close()
 		cs.closedLocal = true
-		w.settle(func() bool { _, _, _, eof, _ := cs.snapshot(); return endedCond() && eof })
+		w.settle(endedCond)
 	case "start":
 		s.Start()
 		w.settle(func() bool { return true })
